@@ -10,7 +10,7 @@ def run(ctx):
     q = ctx.quick()
     tp = ctx.path("trace.ndjson")
     n = 300 if q else 60000
-    rc, out = vlib.go_test(ctx, "", HARNESS, "TestVerifWire$", env={"VERIF_OUT": tp, "VERIF_NRANDOM": n}, timeout=1800)
+    rc, out = vlib.go_test(ctx, "", HARNESS, "TestVerifWire$", env={"VERIF_OUT": tp, "VERIF_NRANDOM": n, "VERIF_REAL_ZMQ": 1}, timeout=1800)
     if rc != 0:
         raise vlib.MachineryError("wire driver failed:\n" + out[-3000:])
     viols, done = vlib.validate_trace(ctx, "WireTrace", "WireTrace.cfg", tp, heap="24g", timeout=3000)
